@@ -859,6 +859,10 @@ static int _fetch_and_process_packet(OggVorbis_File *vf,
           vf->current_serialno=vf->os.serialno;
           vf->current_link++;
           link=0;
+
+          /* _fetch_headers already submitted the page it left in og;
+             submitting it again would fake a hole */
+          continue;
         }
       }
     }
